@@ -1280,6 +1280,41 @@ fn gen_composed_orders(ctx: &mut Ctx) {
     }
 }
 
+/// User Attribute packets: image attributes with every kind of image header (version 1 JPEG with the
+/// usual 16-octet header, longer headers, other formats, other header versions), attributes of other
+/// types, every subpacket length form (oracles only: the packet type is outside the model)
+fn gen_user_attributes(ctx: &mut Ctx) {
+    let jpeg = [0xFFu8, 0xD8, 0xFF, 0xE0, 1, 2, 3];
+    let mut attrs: Vec<(String, Vec<u8>)> = Vec::new();
+    // image headers: (length field, version, format, octets behind the format)
+    for (hl, ver, fmt, extra) in [(16u16, 1u8, 1u8, 12usize), (17, 1, 1, 13), (20, 1, 1, 16), (4, 1, 1, 0), (16, 1, 2, 12), (5, 1, 9, 1), (16, 2, 1, 12), (3, 2, 0, 0), (9, 7, 1, 5), (16, 0, 1, 12)] {
+        let mut a = vec![1u8];
+        a.extend_from_slice(&hl.to_le_bytes());
+        a.push(ver);
+        if hl >= 4 {
+            a.push(fmt);
+            a.extend(std::iter::repeat(0u8).take(extra));
+        }
+        a.extend_from_slice(&jpeg);
+        attrs.push((format!("image header len={hl} version={ver} format={fmt}"), a));
+    }
+    attrs.push(("attribute type 2".into(), vec![2, 9, 9, 9]));
+    attrs.push(("attribute type 100, empty".into(), vec![100]));
+    attrs.push(("attribute type 255".into(), { let mut v = vec![255u8]; v.extend(pattern(3, 300)); v }));
+    for (what, a) in &attrs {
+        for form in [1u8, 2, 5] {
+            let Some(l) = wire::sub_len(form, a.len()) else { continue };
+            let mut body = l;
+            body.extend_from_slice(a);
+            // (the one-octet form where it fits, the two-octet form from 192: the canonical ones)
+            // (a version 1 JPEG header is 16 octets by definition: other lengths are accepted leniently and normalised)
+            let lenient = what.contains("version=1 format=1") && !what.contains("len=16");
+            let canonical = !lenient && wire::sub_len_min(a.len()).len() == wire::sub_len(form, a.len()).map(|x| x.len()).unwrap_or(0);
+            pkt(ctx, 17, body, canonical, &format!("user_attribute:{what}"));
+        }
+    }
+}
+
 fn gen_secret_leading_zeros(ctx: &mut Ctx) {
     use pgp::crypto::public_key::PublicKeyAlgorithm;
     use pgp::packet::{PubKeyInner, PublicKey, SecretKey};
@@ -1330,6 +1365,7 @@ fn gen_secret_leading_zeros(ctx: &mut Ctx) {
 
 fn gen_api(ctx: &mut Ctx) {
     gen_secret_leading_zeros(ctx);
+    gen_user_attributes(ctx);
     gen_composed_orders(ctx);
     let mut rng = rand_chacha::ChaCha8Rng::seed_from_u64(ctx.seed ^ 0xC05);
     let mut plans: Vec<(KeyVersion, KeyType, Option<KeyType>, &str)> = vec![
